@@ -188,20 +188,20 @@ theorem cond_ge_nat {x k : Nat} (hx : x < 2 ^ 64) (hk : k < 2 ^ 64) :
 theorem labelsOf_record (id : Nat) (skip : Label) : labelsOf (recordRuleID id skip) = [] := by
   simp [recordRuleID, loadImm64, labelsOf, load8, jumpGEImm64, mov64, addImm64, store8, shiftLImm64, add64, store64, mk, mkJ]
 
+theorem shl3 (h : Nat) (hh : h < 32) : BitVec.ofNat 64 h <<< 3 = BitVec.ofNat 64 (h * 8) := by
+  apply BitVec.eq_of_toNat_eq
+  simp only [BitVec.toNat_shiftLeft, BitVec.toNat_ofNat, Nat.shiftLeft_eq]
+  have e1 : h % 2 ^ 64 = h := Nat.mod_eq_of_lt (by omega)
+  rw [e1]
+
 /-- The address computed for the rule-id slot. -/
 theorem record_addr (h : Nat) (hh : h < 32) :
     ((BitVec.ofNat 64 h <<< ((sext32 3).toNat % 64)) + sext32 112 + stateW) + BitVec.ofInt 64 0 =
       stateW + BitVec.ofNat 64 (h * 8 + 112) := by
-  have s3 : sext32 3 = 3#64 := by decide
-  have s112 : sext32 112 = 112#64 := by decide
+  have s3 : (sext32 3).toNat % 64 = 3 := by decide
+  have s112 : sext32 112 = BitVec.ofNat 64 112 := by decide
   have s0 : BitVec.ofInt 64 0 = 0#64 := by decide
-  rw [s3, s112, s0]
-  apply BitVec.eq_of_toNat_eq
-  unfold stateW stateBase
-  simp only [BitVec.toNat_add, BitVec.toNat_shiftLeft, BitVec.toNat_ofNat, Nat.shiftLeft_eq]
-  have e3 : 3 % 2 ^ 64 % 64 = 3 := by omega
-  rw [e3]
-  omega
+  rw [s3, s112, s0, shl3 h hh, BitVec.add_zero, ← BitVec.ofNat_add, BitVec.add_comm]
 
 /-- `writeRecordRuleID`: either the hit table is full and control jumps to `skip`, or the rule id
 is recorded and control falls through; the invariant holds either way. -/
